@@ -75,6 +75,10 @@ def prod(
     """
     a = numpoly.aspolynomial(a)
     assert out is None
+    where = kwargs.pop("where", True)
+    if where is not True:
+        # elements left out of the product count as one
+        a = numpoly.where(numpy.broadcast_to(where, a.shape), a, 1)
     initial = kwargs.pop("initial", None)
     if initial is not None:
         return numpoly.multiply(
